@@ -100,6 +100,9 @@ func Run(c *hx.Ctx) {
 	for _, in := range w.frameAllocProbes() {
 		run(c, in)
 	}
+	for _, in := range w.frameProbes() {
+		run(c, in)
+	}
 
 	// ---- WriteMessage ----
 	k := c.N(18, 200)
@@ -266,5 +269,39 @@ func (w *world) frameAllocProbes() []input {
 	f := frame(magic, pcom.ADDR_TYPE, p)
 	ins = append(ins, input{Kind: "frame", Magic: magic, Stream: hx.Hex(f), Label: "alloc:addr-count-2^40", Alloc: true})
 	_ = fmt.Sprint
+	return ins
+}
+
+// frameProbes: deterministic single-field corruptions of one valid ping frame (every magic byte,
+// every checksum byte, the length field, the command) and the payload-level finding witnesses
+// inside valid frames.
+func (w *world) frameProbes() []input {
+	var ins []input
+	magic := magics[0]
+	base := frame(magic, pcom.PING_TYPE, le64(77))
+	add := func(s []byte, label string) {
+		ins = append(ins, input{Kind: "frame", Magic: magic, Stream: hx.Hex(s), Label: "probe:" + label})
+	}
+	add(base, "ping-valid")
+	for i := 0; i < 4; i++ {
+		s := append([]byte{}, base...)
+		s[i] ^= 0x10
+		add(s, fmt.Sprintf("magic-byte-%d", i))
+		s = append([]byte{}, base...)
+		s[20+i] ^= 0x01
+		add(s, fmt.Sprintf("checksum-byte-%d", i))
+		s = append([]byte{}, base...)
+		s[16+i] ^= 0x01
+		add(s, fmt.Sprintf("length-byte-%d", i))
+	}
+	s := append([]byte{}, base...)
+	s[24] ^= 1
+	add(s, "payload-bit-under-old-checksum")
+	s = append([]byte{}, base...)
+	s[8] = 'x' // "ping" -> "pingx": unknown command, payload kept verbatim
+	add(s, "cmd-pingx")
+	add(frame(magic, pcom.PING_TYPE, append(le64(5), 0xaa)), "ping-trailing-byte")
+	add(frame(magic, "ping\x00\x00\x00\x00\x00\x00\x00z", le64(5)), "cmd-with-late-byte")
+	add(frame(magic, "exactly12byt", []byte{1, 2, 3}), "cmd-12-bytes")
 	return ins
 }
